@@ -121,7 +121,22 @@ def _check_merges(ctx, f) -> None:
                             if in_body or after:
                                 guarded = True
                 what = f"{f.qualname}: {acc}.append({item}) for {item} in {src}"
+                # a silent de-duplication must be keyed by the identity of the item: keyed by one of its attributes
+                # (description, name, ...) it also drops a DIFFERENT item that happens to share the attribute
                 if guarded:
+                    body_mod = ast.Module(body=inner.body, type_ignores=[])
+                    id_vars = {a.targets[0].id for a in ast.walk(body_mod) if isinstance(a, ast.Assign) and isinstance(a.targets[0], ast.Name) and isinstance(a.value, ast.Call)
+                               and dotted_of(a.value.func) == "id" and a.value.args and dotted_of(a.value.args[0]) == item}
+                    reports = any(isinstance(c, ast.Call) and ((dotted_of(c.func) or "").endswith("errors.append") or dotted_of(c.func) == "Error") for c in ast.walk(body_mod))
+                    for add in [c for c in ast.walk(body_mod) if isinstance(c, ast.Call) and isinstance(c.func, ast.Attribute) and c.func.attr == "add" and c.args]:
+                        k = add.args[0]
+                        by_identity = (isinstance(k, ast.Name) and (k.id in id_vars or k.id == item)) or (isinstance(k, ast.Call) and dotted_of(k.func) == "id" and k.args and dotted_of(k.args[0]) == item)
+                        if not by_identity and not reports:
+                            ctx.fail("MERGE", f, add, f"the inherited `{src}` are de-duplicated by `{short(k)}`, not by the identity of the {item}: two different {item}s that agree on it (coming from two unrelated parents) are collapsed silently, and later checks never see the second one", construct=f"{f.qualname}: de-duplication of {src} keyed by identity")
+                            guarded = None
+                if guarded is None:
+                    pass
+                elif guarded:
                     ctx.ok("MERGE", f, app, what=what)
                 else:
                     ctx.fail("MERGE", f, app,
